@@ -231,6 +231,27 @@ def run_shapes(unit, acc):
             continue
         acc.hit("add_shape")
         added.append((mbr, sp.shape_id))
+        # default values as the API reports them on a new shape - also on a SECOND shape of the type added after the first one's
+        # adjustments were changed (defaults must not be shared between shapes)
+        want = defs.get(mbr.xml_value)
+        vals = [int(f.split()[1]) / 100000.0 for _, f in want] if want and all(len((f or "").split()) == 2 and f.split()[0] == "val" for _, f in want) else None
+        if vals:
+            try:
+                got = [a for a in sp.adjustments]
+                if len(got) == len(vals) and any(abs(g - w) > 1e-9 for g, w in zip(got, vals)):
+                    acc.violation("adjustment-default:%s" % mbr.xml_value, "%s: new shape reports adjustments %s, standard defaults %s" % (mbr.name, got, vals), {"member": mbr.name})
+                for i in range(len(got)):
+                    sp.adjustments[i] = 0.0625 + i / 16.0
+                sp2 = slide.shapes.add_shape(mbr, Emu(100), Emu(200), Emu(300000), Emu(400000))
+                got2 = [a for a in sp2.adjustments]
+                acc.count("second_shapes_of_a_type_read_after_the_first_was_adjusted")
+                if len(got2) == len(vals) and any(abs(g - w) > 1e-9 for g, w in zip(got2, vals)):
+                    acc.violation("adjustment-default-shared:%s" % mbr.xml_value, "%s: a second shape, added after the first one's adjustments were set to %s, reports %s; standard defaults %s" % (mbr.name, [a for a in sp.adjustments], got2, vals), {"member": mbr.name})
+                sp2._element.getparent().remove(sp2._element)
+                for i, w in enumerate(vals):  # back to the defaults: the read-back part below compares counts only
+                    sp.adjustments[i] = w
+            except Exception as e:  # noqa
+                acc.violation("adjustments-raise:%s" % mbr.xml_value, "%s: reading/setting adjustments raised %r" % (mbr.name, e), {"member": mbr.name})
     buf = io.BytesIO()
     prs.save(buf)
     prs2 = pptx.Presentation(io.BytesIO(buf.getvalue()))
